@@ -217,6 +217,42 @@ func (c *PlainCfg) rule() error {
 	return nil
 }
 
+// ---- EmbedCfg: an embedded (anonymous, untagged) struct whose leaves are
+// settable from file, env and flag.  Where the embedded leaves live in a
+// config file depends on the format, on Params.FlattenAnonymousFields and on
+// Params.FileFieldNameEncoder (see leafDef.fileKey).
+
+type EmbedCommon struct {
+	Region   string              `dials:"region"`
+	Replicas int                 `dials:"replicas"`
+	Zones    map[string]struct{} `dials:"zones"`
+	Linger   time.Duration       `dials:"linger"`
+}
+
+type EmbedCfg struct {
+	CfgFile string `dials:"cfgfile"`
+	EmbedCommon
+	Title string `dials:"title"`
+	Rank  int    `dials:"rank"`
+}
+
+func (c *EmbedCfg) ConfigPath() (string, bool) { return c.CfgFile, c.CfgFile != "" }
+
+func (c *EmbedCfg) Verify() error {
+	recordVerify(c)
+	return c.rule()
+}
+
+func (c *EmbedCfg) rule() error {
+	if c.Replicas < 0 {
+		return fmt.Errorf("replicas %d is negative: %w", c.Replicas, errVerify)
+	}
+	if c.Rank <= 0 {
+		return fmt.Errorf("rank %d is not positive: %w", c.Rank, errVerify)
+	}
+	return nil
+}
+
 // ---- SplitCfg: the path is computed from two leaves (directory and base
 // name) that different layers may supply; other integer widths.
 
